@@ -142,8 +142,10 @@ def _w7_structure(prog, res):
   # input keys are executed for each key (tests on input_key decided by the
   # spelling evaluator) and the constant stored in `monotonicity` is read off
   from ..rules import spelling
-  kl = [l for l in ast.walk(fn.node) if isinstance(l, ast.For) and dotted(
-      l.target) == 'input_key']
+  kl = [l for l in ast.walk(fn.node) if isinstance(l, ast.For) and (
+      dotted(l.target) == 'input_key' or (
+          isinstance(l.target, ast.Tuple) and any(
+              dotted(e) == 'input_key' for e in l.target.elts)))]
   if not kl:
     raise AnalysisError('%s: loop over input_key not found' % fn.qualname)
   m = {}
